@@ -16,21 +16,19 @@ Print Assumptions C31_spec_is_documented_language.
 
 (* The for(;;) loop of PathMatch::match (backtrack stack, greedy stars, restart
    at the next separator) on canonical reversed strings: whenever it answers,
-   the answer is the specification - for every pattern in which each '*' / '**'
-   is preceded in the pattern text by a literal character or the pattern start. *)
-Theorem C31_match_loop_partial fuel real s t b :
-  star_ok s = true -> match_loop fuel real s t = Some b -> b = rsearch real s t.
+   the answer is the specification, for every pattern and path. *)
+Theorem C31_match_loop_spec fuel real s t b :
+  match_loop fuel real s t = Some b -> b = rsearch real s t.
 Proof. exact (match_loop_spec fuel real s t b). Qed.
-Print Assumptions C31_match_loop_partial.
+Print Assumptions C31_match_loop_spec.
 
 (* PathMatch::match(pattern, path, basepath, mode, unix) as a whole (fast paths,
    directory-only patterns, real patterns, iterators) against the documented
-   rules over the documented canonical forms.  partial: patterns of the class
-   star_ok; pattern and path on which the iterators read the canonical form
-   (reads_canon_b); the `pattern == path` shortcut is covered for real patterns
-   or an empty base path (fast_ok). *)
+   rules over the documented canonical forms.  partial: pattern and path on
+   which the iterators read the canonical form (reads_canon_b); the
+   `pattern == path` shortcut is covered for real patterns or an empty base
+   path (fast_ok). *)
 Theorem C31_pathmatch_partial fuel pattern path base isdir b :
-  star_ok (iter_pattern pattern base) = true ->
   fast_ok pattern base = true ->
   reads_canon_b pattern path base = true ->
   pathmatch_fuel fuel pattern path base isdir = Some b ->
@@ -38,20 +36,11 @@ Theorem C31_pathmatch_partial fuel pattern path base isdir b :
 Proof. exact (pathmatch_fuel_spec fuel pattern path base isdir b). Qed.
 Print Assumptions C31_pathmatch_partial.
 
-(* The class restriction is forced: the code, as it is, rejects "ba" for the
-   pattern "?*a" although the documented language matches it. *)
-Theorem C31_pathmatch_star_refuted :
-  exists pattern path,
-    fast_ok pattern [] = true /\ reads_canon_b pattern path [] = true /\
-    pathmatch_model pattern path [] false = Some false /\ pathmatch_spec pattern path [] false.
-Proof. exact pathmatch_star_refuted. Qed.
-Print Assumptions C31_pathmatch_star_refuted.
-
-(* So is the canonical-form restriction: the iterator reads "a//b" as "ab"
+(* The canonical-form restriction is forced: the iterator reads "a//b" as "ab"
    (and "/../a" as "a"), so "a/b" does not match the path "a//b". *)
 Theorem C31_pathmatch_canon_refuted :
   exists pattern path,
-    star_ok (iter_pattern pattern []) = true /\ fast_ok pattern [] = true /\
+    fast_ok pattern [] = true /\
     pathmatch_model pattern path [] false = Some false /\ pathmatch_spec pattern path [] false.
 Proof. exact pathmatch_canon_refuted. Qed.
 Print Assumptions C31_pathmatch_canon_refuted.
@@ -127,7 +116,7 @@ Print Assumptions C31_select_sound_partial.
 
 (* premises are inhabited *)
 Example C31_premises_ok :
-  star_ok (iter_pattern [115;114;99;47;42;46;99]%N [47;114]%N) = true /\            (* "src/*.c", base "/r" *)
+  pathmatch_model [63;42;97]%N [98;97]%N []%N false = Some true /\                 (* "?*a" vs "ba" (fixed by 0d8f8cc) *)
   fast_ok [115;114;99;47;42;46;99]%N [47;114]%N = false /\
   fast_ok [46;47;115;114;99]%N [47;114]%N = true /\                                (* "./src" *)
   reads_canon_b [46;47;115;114;99]%N [115;114;99;47;97;46;99]%N [47;114]%N = true /\
